@@ -293,8 +293,14 @@ def handleFindOx (j : Json) : Json :=
     | .ok n => Json.num n
     | .raises w => Json.str w
     | .unmodelled => Json.null
+  let markJ : List (String × Json) := match (j.getObjValAs? Nat "binding").toOption, (j.getObjValAs? Nat "o_marker").toOption, (j.getObjValAs? Nat "n_marker").toOption with
+    | some b, some oZ, some nZ => [("mark", match EnumC.markAt v x b oZ nZ with
+        | .ok (r, z) => Json.arr #[Json.num r, Json.num z]
+        | .raises w => Json.str w
+        | .unmodelled => Json.null)]
+    | _, _, _ => []
   match (j.getObjValAs? Nat "binding").toOption, (j.getObjValAs? Nat "position").toOption with
-  | some b, _ => Json.mkObj [("find", enc (EnumC.findOxygen v x b)), ("root", enc (EnumC.rootAtomId v x b))]
+  | some b, _ => Json.mkObj ([("find", enc (EnumC.findOxygen v x b)), ("root", enc (EnumC.rootAtomId v x b))] ++ markJ)
   | none, some p => Json.mkObj [("find", enc (EnumC.findOxygenAt v [p]))]
   | none, none => Json.mkObj [("error", "no binding / position")]
 
